@@ -266,7 +266,8 @@ static void gen(plan_t *p, rng_t *r)
             }
         } else if (k < 62) {
             int pow2 = rng_chance(r, 1, 8);         /* one in eight: a result whose length is a power of two, or one or two off it (a scratch buffer of any such size, filled exactly) */
-            o = plan_op(p, 0, "sprintf", 3, (long)s, pow2 && rng_chance(r, 2, 3) ? 0L : (long)rng_below(r, 6), (long)(int)rng_u64(r));
+            if (rng_chance(r, 1, 10)) o = plan_op(p, 0, "sprintf", 4, (long)s, (long)rng_below(r, 3), (long)(int)rng_u64(r), (long)rng_range(r, 1, 2));      /* the formatter fails at its first or second call */
+            else o = plan_op(p, 0, "sprintf", 3, (long)s, pow2 && rng_chance(r, 2, 3) ? 0L : (long)rng_below(r, 6), (long)(int)rng_u64(r));
             size_t want = pow2 ? (size_t)((1 << rng_range(r, 4, 13)) + rng_range(r, -2, 1)) : 0;
             n = pow2 ? gen_text(r, buf, want, 2) : rng_chance(r, 1, 6) ? gen_text(r, buf, 15000, rng_range(r, 1, 2)) : gen_text(r, buf, 60, 0);       /* one in six formats several kilobytes */
             while (n < want) buf[n++] = 'a';
